@@ -13,7 +13,7 @@ the `_src` theorem, is then re-proved by Lean on that run — or stops checking.
 -/
 namespace CircBuf
 
-theorem C02_push_back_src (s : Sys) (x : Elem) (h : Inv s.buf) :
+maybe theorem C02_push_back_src (s : Sys) (x : Elem) (h : Inv s.buf) :
     ∃ b', Gen.push_back x s = (.ok (displacedBack s.buf.cap (abs s.buf) x), { s with buf := b' }) ∧
       Inv b' ∧ b'.cap = s.buf.cap ∧
       abs b' = (if s.buf.cap = 0 then abs s.buf
@@ -22,7 +22,7 @@ theorem C02_push_back_src (s : Sys) (x : Elem) (h : Inv s.buf) :
   first
   | (rw [tie_push_back _ s h (nd_pushBack _ s h)]; exact C02_push_back s x h)
 
-theorem C02_push_front_src (s : Sys) (x : Elem) (h : Inv s.buf) :
+maybe theorem C02_push_front_src (s : Sys) (x : Elem) (h : Inv s.buf) :
     ∃ b', Gen.push_front x s = (.ok (displacedFront s.buf.cap (abs s.buf) x), { s with buf := b' }) ∧
       Inv b' ∧ b'.cap = s.buf.cap ∧
       abs b' = (if s.buf.cap = 0 then abs s.buf
@@ -31,14 +31,14 @@ theorem C02_push_front_src (s : Sys) (x : Elem) (h : Inv s.buf) :
   first
   | (rw [tie_push_front _ s h (nd_pushFront _ s h)]; exact C02_push_front s x h)
 
-theorem C02_try_push_back_src (s : Sys) (x : Elem) (h : Inv s.buf) :
+maybe theorem C02_try_push_back_src (s : Sys) (x : Elem) (h : Inv s.buf) :
     (s.buf.size = s.buf.cap → Gen.try_push_back x s = (.ok (.error x), s)) ∧
     (s.buf.size ≠ s.buf.cap → ∃ b', Gen.try_push_back x s = (.ok (.ok ()), { s with buf := b' }) ∧
         Inv b' ∧ b'.cap = s.buf.cap ∧ abs b' = abs s.buf ++ [x] ∧ b'.size = s.buf.size + 1) := by
   first
   | (rw [tie_try_push_back _ s h (nd_tryPushBack _ s h)]; exact C02_try_push_back s x h)
 
-theorem C02_try_push_front_src (s : Sys) (x : Elem) (h : Inv s.buf) :
+maybe theorem C02_try_push_front_src (s : Sys) (x : Elem) (h : Inv s.buf) :
     (s.buf.size = s.buf.cap → Gen.try_push_front x s = (.ok (.error x), s)) ∧
     (s.buf.size ≠ s.buf.cap → ∃ b', Gen.try_push_front x s = (.ok (.ok ()), { s with buf := b' }) ∧
         Inv b' ∧ b'.cap = s.buf.cap ∧ abs b' = x :: abs s.buf ∧ b'.size = s.buf.size + 1) := by
